@@ -13,7 +13,9 @@ def run(prog, rep, tier):
                   "B3: parse_subquery returns the tree only along the yyparse()==0 edge and every other outcome reaches a throw (CFG reachability, "
                   "if- and switch-forms); T1: no std::exception-derived object is constructed as a discarded expression statement (missing `throw`); "
                   "Y1: flex finds no matchable default rule and every start condition has an <<EOF>> rule; K3: CLI handlers exit 2.")
-    rep.not_decided = ("hangs, reads beyond the given length inside the generated scanner, behaviour under allocation failure, and that error "
+    rep.not_decided = ("hangs, reads beyond the given length inside the generated scanner, behaviour under allocation failure, exhaustion of the C stack by "
+                       "deeply nested input (the recursion of build_exec / tree::simplify is bounded by the parser's stack limit; whether that many frames fit "
+                       "is a quantity - `[|A| ` nested 4900 deep does overflow an 8 MB stack on the unchanged tree, DESIGN section 20), and that error "
                        "messages are non-empty (run-time properties).")
     rep.assumptions += effects.ASSUMPTIONS + ["exemption edges of the may-throw analysis: %s" % ", ".join("%s->%s" % k for k in effects.NOTHROW_EDGES)]
     apply(rep, "B1", "capture_errors wrap discipline", r_api.b1(prog), 25)
